@@ -92,6 +92,11 @@ class C10:
             else:
                 code = rng.pick([0, 1, 99, 100, 200, 204, 404, 999, rng.below(1000)])
                 reason = rng.pick(gen.REASONS) if rng.chance(2, 3) else gen.rand_bytes(rng, rng.below(12), VALUE_ALPHA + b"  \t")
+                if rng.chance(1, 6):
+                    # a registered code with its registered phrase in another letter case (twelfth round: replaced by the registered one)
+                    from . import extremes
+                    code, ph = rng.pick(extremes.STANDARD_REASONS)
+                    reason = rng.pick([ph.lower(), ph.upper(), ph.swapcase(), ph, gen.randcase(rng, ph)])
                 if rng.chance(1, 40):       # status lines of 4094..4096, 8191 and 65535 bytes (13 bytes precede a 3-digit code's reason)
                     reason = b"r" * (rng.pick([4094, 4095, 4095, 4096, 8191, 8192, 65535]) - 10 - len(str(code)))
                 g = Group("g%d" % k, "resp-value", {"code": code, "reason": reason.hex(), "headers": [[a.hex(), b.hex()] for a, b in hs], "body": body.hex(), "hl": hl})
